@@ -1,6 +1,8 @@
 // Package neg: every function must be rejected by the translator (see translate_test.go).
 package neg
 
+import "errors"
+
 func Shadow(a int) int {
 	if a > 0 {
 		a := 2
@@ -146,4 +148,67 @@ func AliasCopy(a []int) int {
 func AliasParams(a, b []int) int {
 	a[0] = 1
 	return b[0]
+}
+
+// third round (mut.go)
+
+var ErrPoked = errors.New("poked")
+
+func Poke() { ErrPoked = nil }
+
+func ReadEarly(b *Big, out *Big) int { return out.n }
+
+func AliasLoop(b *Big) {
+	var q *int
+	for i := 0; i < 3; i++ {
+		q = &b.n
+	}
+	*q = 1
+}
+
+func AliasOther(b *Big) {
+	var z int
+	var q *int
+	q = &z
+	*q = 1
+}
+
+var errMaybe error
+
+func MaybeNil(k int) (int, error) { return k, errMaybe }
+
+func PokedErr(k int) (int, error) {
+	if k == 0 {
+		return 0, ErrPoked
+	}
+	return k, nil
+}
+
+func WriteUndeclared(b *Big) { b.m = 1 }
+
+func dup(t *Big) *Big { return t }
+
+func CopyMissing(b *Big, out *Big) int {
+	out = dup(b)
+	return out.m
+}
+
+func DerefCond(b *Big, k int) int {
+	var q *int
+	if k > 0 && *q == 0 {
+		return 1
+	}
+	return 0
+}
+
+func ReturnUninit(b *Big, out *Big) (*Big, error) {
+	out.n = 1
+	return out, nil
+}
+
+func setM(t *Big) { t.m = 2 }
+
+func CalleeWrites(b *Big) {
+	b.n = 1
+	setM(b)
 }
